@@ -285,4 +285,24 @@ def wiskiT [Field α] (Kuu P : DMat g g α) : DMat g g α := DMat.one.add (Kuu.m
 
 end interp
 
+/-! ### primitives of linear_operator / torch that the regenerated strategy algebra (`Gen/StructuredAlgebra.lean`)
+is written against.  Their contracts (`inv A = A⁻¹`, `cholL A · (cholL A)ᵀ = A`, `cholLInv A = (cholL A)⁻¹`,
+`cholUInv A = U⁻¹` with `UᵀU = A`, `sqrt c · sqrt c = c`) are hypotheses of the theorems, never assumed here. -/
+
+/-- oracle record for the non-rational primitives -/
+structure Prim (α : Type) where
+  /-- `A.solve(B) = inv A · B` -/
+  inv : {n : Nat} → DMat n n α → DMat n n α
+  /-- `psd_safe_cholesky(A)` / `A.cholesky()` (lower factor) -/
+  cholL : {n : Nat} → DMat n n α → DMat n n α
+  /-- `solve_triangular(cholesky(A), B, upper=False) = cholLInv A · B` -/
+  cholLInv : {n : Nat} → DMat n n α → DMat n n α
+  /-- `solve_triangular(psd_safe_cholesky(A, upper=True), B, upper=True) = cholUInv A · B` -/
+  cholUInv : {n : Nat} → DMat n n α → DMat n n α
+  /-- `c.sqrt()` -/
+  sqrt : α → α
+
+/-- `KroneckerProductLinearOperator(*factors)`: the first factor varies slowest (standard Kronecker product) -/
+abbrev kronList [Mul α] [Zero α] [One α] (Ks : List (Sq α)) : Sq α := gridKronRowMajor Ks
+
 end Structured
